@@ -124,7 +124,11 @@ func (in *Interp) load(pv Value) Value {
 		return in.load(p.withIndex(k, int(i)))
 	}
 	get, _ := in.navigate(p)
-	return copyVal(get())
+	v := get()
+	if _, bad := v.(Poison); bad && in.noFork == 0 {
+		panic(&pathEnd{kind: "unsupported", msg: fmt.Sprintf("use of a value initialised by code outside reach: %s %v", p.obj.name, p.path)})
+	}
+	return copyVal(v)
 }
 
 func (in *Interp) store(pv Value, v Value) {
